@@ -9,12 +9,14 @@ Definition show_level (x : Z) : list des_in :=
 Definition show_frame (b : Z) : list des_in := concat (map show_level (frame8n1 b)).
 Definition consumer_ready (k : nat) : list des_in := repeat {| di_rx := 1; di_ready := 1; di_sample := 0 |} k.
 
-Lemma shown_show_frame b : shown (frame8n1 b) (show_frame b).
+Lemma shown_levels xs : shown xs (concat (map show_level xs)).
 Proof.
-  unfold show_frame. induction (frame8n1 b) as [|x xs IH]; cbn [map concat]; [constructor|].
+  induction xs as [|x xs IH]; cbn [map concat]; [constructor|].
   unfold show_level at 1. cbn [app]. apply pr_idle; [reflexivity|]. apply pr_idle; [reflexivity|].
   apply pr_sample; auto.
 Qed.
+Lemma shown_show_frame b : shown (frame8n1 b) (show_frame b).
+Proof. apply shown_levels. Qed.
 
 Lemma des_stall_witness :
   des_transfers des_init (show_frame 85 ++ show_frame 163 ++ consumer_ready 5) = [163].
